@@ -367,12 +367,26 @@ def volumeHeads (img : Img) (numVolumes : Nat) : List (Name × List Nat) :=
       | some d, some p => some (d.name, ptrList ((p.drop 32).take 128))
       | _, _ => none
 
-/-- performance indices whose directory record has the performance type byte (orphan search). -/
-def perfIndices (img : Img) : List Nat :=
-  (List.range (maxNum .perf)).filter fun i =>
-    match dirRec img .perf i with
-    | some d => d.ftype == 0x41
-    | none => false
+/-- the orphan search parses the whole performance directory *sequentially* (`Pointer(area, SafeListConstruct(512,
+DirectoryEntryParser))`): a record whose name does not decode has consumed only its 16 name bytes, so the
+next slot is read 16 bytes early and, once the stream is back on a record boundary, every later record is seen
+under a slot number that is too high. `n` slots remain, the next one is slot `i`, the stream stands at `pos`.
+A short read leaves the stream at its end, so nothing parses after it. -/
+def perfScan (img : Img) : Nat → Nat → Nat → List Nat
+  | 0, _, _ => []
+  | n + 1, i, pos =>
+    match img.rd pos 16 with
+    | none => []
+    | some nm =>
+      match padded nm with
+      | none => perfScan img n (i + 1) (pos + 16)
+      | some _ =>
+        match img.rd (pos + 16) 16 with
+        | none => []
+        | some rest => (if rest.getD 0 0 == 0x41 then [i] else []) ++ perfScan img n (i + 1) (pos + 32)
+
+/-- slot numbers under which the orphan search sees a record with the performance type byte. -/
+def perfIndices (img : Img) : List Nat := perfScan img (maxNum .perf) 0 (dirOff .perf)
 
 /-- the whole tree: named volumes, plus the orphan pseudo-volume when fewer distinct performances
 are referenced than the ID area declares. -/
